@@ -13,7 +13,7 @@ RULE = ("exhaustive: attempts 1..A x every outcome sequence of that length over 
         "4 classes, thorough: A=6 and 5 classes. Oracle: a reference loop written from the statement gives the number "
         "of inner invocations, the sleeps and the outcome (first ok result by identity / final attempt's exception "
         "object by identity); arguments must reach the inner method unchanged each time. Invalid configurations must "
-        "raise at construction; neighbouring valid ones must not. The same table is run over pymemcache's own exception hierarchy (MemcacheError, MemcacheClientError, MemcacheIllegalInputError, MemcacheServerError, MemcacheUnexpectedCloseError, MemcacheUnknownCommandError) and socket.timeout / ConnectionResetError / KeyError: no class is treated specially. A wrapped call that succeeds with an exception INSTANCE as its return value (of any of the classes, under every filter pair) has succeeded: returned unchanged, not retried. Wrapped instances: three RetryingClients alive at once around different instances of one class whose operations are instance attributes (name sets differing from instance to instance), every offered operation called through every wrapper in both orders - the same reference decides, and dir() of the wrapper lists the operation. Non-trivial: >=2 invocations were needed or a filter "
+        "raise at construction; neighbouring valid ones must not. The same table is run over pymemcache's own exception hierarchy (MemcacheError, MemcacheClientError, MemcacheIllegalInputError, MemcacheServerError, MemcacheUnexpectedCloseError, MemcacheUnknownCommandError) and socket.timeout / ConnectionResetError / KeyError: no class is treated specially. The table is also run with the call made from inside an `except` block of the caller, for each class being handled there (the implicit exception context is not part of the outcome of the wrapped call). A wrapped call that succeeds with an exception INSTANCE as its return value (of any of the classes, under every filter pair) has succeeded: returned unchanged, not retried. Wrapped instances: three RetryingClients alive at once around different instances of one class whose operations are instance attributes (name sets differing from instance to instance), every offered operation called through every wrapper in both orders - the same reference decides, and dir() of the wrapper lists the operation. Non-trivial: >=2 invocations were needed or a filter "
         "stopped a retry.")
 MANIFEST = {
     "category": "exploration",
@@ -95,7 +95,8 @@ def reference(attempts, seq, rf, dn):
 
 
 def check(case):
-    attempts, seq, rf, dn, spell, delay, meth = case
+    attempts, seq, rf, dn, spell, delay, meth = case[:7]
+    ambient = case[7] if len(case) > 7 else None      # index of an exception class the CALLER is handling while it makes the call
     sleeps = []
     inner = Inner(seq)
     kw = {}
@@ -113,7 +114,15 @@ def check(case):
         except Exception as e:  # noqa: BLE001
             raise Violation(["valid-config-rejected"], "valid configuration %r rejected: %r" % (case, e))
         try:
-            r = getattr(rc, METHODS[meth])(a1, a2, **kv)
+            if ambient is None:
+                r = getattr(rc, METHODS[meth])(a1, a2, **kv)
+            else:
+                # the usual fall-back pattern: the call is made from inside an `except` block (Python then links the
+                # exception being handled to anything raised meanwhile - which is none of the retry logic's business)
+                try:
+                    raise CLASSES[ambient]("the caller is handling this one")
+                except CLASSES[ambient]:
+                    r = getattr(rc, METHODS[meth])(a1, a2, **kv)
             got = ("ok",) if r is OKV else ("wrong-value", repr(r))
         except AssertionError:
             got = ("too-many-calls",)
@@ -126,6 +135,8 @@ def check(case):
     desc = "attempts=%d outcomes=%r retry_for=%r do_not_retry_for=%r (%s) delay=%r" % (
         attempts, [("ok" if o == 0 else CLASSES[o - 1].__name__) for o in seq],
         [CLASSES[j].__name__ for j in rf], [CLASSES[j].__name__ for j in dn], SPELL[spell].__name__, delay)
+    if ambient is not None:
+        desc += " (call made from inside an except block handling a %s)" % CLASSES[ambient].__name__
     if len(inner.calls) != want_calls:
         raise Violation(["invocations"], "inner invoked %d times, expected %d: %s" % (len(inner.calls), want_calls, desc))
     if want[0] == "exc":
@@ -436,6 +447,24 @@ def check_returned_exception(case):
     return True, ["returned-exception", "calls=%d" % want_calls]
 
 
+def ambient_cases(tier, seed):
+    ncls = 4
+    subs = _subsets(ncls)
+    pairs = [(rf, dn) for rf in subs for dn in subs if not set(rf) & set(dn) and (rf or dn)]
+    for attempts in (2, 3):
+        seqs = set()
+        for full in itertools.product(range(0, ncls + 1), repeat=attempts):
+            if 0 in full:
+                full = full[:full.index(0) + 1]
+            seqs.add(full)
+        for seq in sorted(seqs):
+            for pi, (rf, dn) in enumerate(pairs):
+                for amb in range(ncls):
+                    if tier == "quick" and (pi + amb + len(seq)) % 2:
+                        continue
+                    yield (attempts, seq, rf, dn, pi % 3, 0.25, (pi + amb) % 3, amb)
+
+
 class DynInner:
     """a wrapped client whose operations are attributes of the INSTANCE (a stub, a namespace object, a client given an
     extra per-instance helper): which names exist differs from one instance of the class to the next"""
@@ -509,6 +538,7 @@ def check_instances(case):
 PARTS = [
     Part("library-exception-classes", "enum", check_lib, cases=lib_cases, exhaustive=True, distinct_by_construction=True),
     Part("results-that-are-exceptions", "enum", check_returned_exception, cases=returned_exception_cases, exhaustive=True),
+    Part("calls-from-an-except-block", "enum", check, cases=ambient_cases, exhaustive=True, distinct_by_construction=True),
     Part("wrapped-instances", "enum", check_instances, cases=instance_cases, exhaustive=True),
     Part("decision-table", "enum", check, cases=cases, exhaustive=True, distinct_by_construction=True),
     Part("configurations", "enum", check_config, cases=config_cases, shards={"quick": 1, "thorough": 1}, exhaustive=True),
